@@ -214,12 +214,28 @@ def run_case(cfg_shard, case, out):
             dur = min(7.0, max(5.6, cfg["server_connection_timeout"] + 0.6)) if cfg["server_connection_timeout"] < 6.4 else 5.6
             t_s0 = w.clock.now
             n_ev = len(events)
+            # while the server streams, the client application calls update() every frame but leaves its inbox alone (thousands of
+            # messages pile up uncollected): it still reads its socket, the link stays up
+            lazy = streamer == "server" and (case + cfg_shard["seed"]) % 2 == 0
+            if lazy:
+                a.collect_every = 10 ** 9
+                c.inc("k2_lazy_reader_streams")
+            per_tick = max(1, int(round(2800 / (dur / cfg["dt"])))) if lazy else 1
             for _t in range(int(dur / cfg["dt"])):
                 if streamer == "client":
                     a.udp.send(L.make_payload(1, _t, 24), retry=0)
                 else:
-                    sc.send(L.make_payload(0, _t, 24))
+                    for _q in range(per_tick):
+                        sc.send(L.make_payload(0, _t * 64 + _q, 24))
                 w.step()
+            if lazy:
+                c.inc("k2_uncollected_messages_max", len(a.udp.conn.incoming_messages) if a.udp.conn is not None else 0)
+                # ... and stays like that for six more seconds of an otherwise idle link
+                for _t in range(int(6.0 / cfg["dt"])):
+                    w.step()
+                    if getattr(a.udp.conn.status, "value", 0) != 2:
+                        break
+                a.collect_every = 1
             t_s1 = w.clock.now
             c.inc("k1_one_directional_streams")
             if len(events) != n_ev or getattr(a.udp.conn.status, "value", 0) != 2 or a.addr not in w.ctxt.connections:
@@ -331,10 +347,18 @@ def run_case(cfg_shard, case, out):
         t_drop = None
         horizon = max(cfg["server_connection_timeout"], 5.0) + 3 * tick_max + 1.0
         t_cut = w.clock.now
-        while w.clock.now - t_cut < horizon:
+        # in a third of the worlds the client application is slow from here on: it calls update() only every 1.5 s (the 5 s rule is
+        # about the server's silence, whatever the application's own pace: DROPPED is reported by the first update() after 5 s)
+        slow_every = int(1.5 / cfg["dt"]) if (case + cfg_shard["shard"]) % 3 == 0 else 0
+        if slow_every:
+            c.inc("k3_worlds_with_slow_client_updates")
+        while w.clock.now - t_cut < horizon + (1.6 if slow_every else 0):
+            if slow_every:
+                a.active = (w.ticks % slow_every == 0)
             w.step()
             if t_drop is None and getattr(a.udp.conn.status, "value", 0) == 5:
                 t_drop = w.clock.now
+        a.active = True
         c.inc("k3_link_cuts")
         w.tick_hooks[:] = [h for h in w.tick_hooks if getattr(h, "__name__", "") != "replayer"]
         del a.sock.fifo[:]
@@ -352,7 +376,7 @@ def run_case(cfg_shard, case, out):
             viol("dead-peer-not-detected:client", "client status %s %.1fs after the link was cut" % (a.udp.conn.status, horizon))
         else:
             el = t_drop - a.udp.conn.last_recv_time      # relative to the last datagram the client accepted
-            if el < 5.0 - EPS or el > 5.0 + 2 * tick_max + EPS:
+            if el < 5.0 - EPS or el > 5.0 + 2 * tick_max + EPS + (1.5 + tick_max if slow_every else 0):
                 viol("client-dropped-window", "client reported DROPPED %.4fs after the last datagram it accepted (expected 5 s + 2 ticks)" % el)
             else:
                 c.inc("k3_client_in_window")
@@ -437,7 +461,7 @@ def finish(tier, seed, results):
                          "setter_connect_timeout_after", "setter_message_timeout_before", "setter_message_timeout_after", "k5_keep_alive_lowered_mid_idle",
                          "k5_keep_alive_lowered_in_window", "k1_one_directional_streams", "k1_quiet_side_within_bound",
                          "same_ip_second_client_connected", "k4_reconnect_after_dropped_in_window", "k4_reconnect_after_heal_connected",
-                         "k5_settings_in_force_in_second_session", "worlds_configured_after_server_construction", "k3_worlds_with_replays_during_the_cut"], inconclusive)
+                         "k5_settings_in_force_in_second_session", "worlds_configured_after_server_construction", "k3_worlds_with_replays_during_the_cut", "k3_worlds_with_slow_client_updates", "k2_lazy_reader_streams"], inconclusive)
     cov = {
         "evaluations": m["evaluations"],
         "distinct_nontrivial": m["distinct_nontrivial"],
